@@ -8,6 +8,7 @@ import argparse
 import importlib
 import json
 import os
+import subprocess
 import sys
 import time
 
@@ -43,6 +44,11 @@ def run(mod, ctx, indices, seconds):
         ctx.begin_case(name, idx)
         try:
             fn(ctx, rng)
+        except subprocess.TimeoutExpired as exc:
+            # a generous wall-clock watchdog around a child process fired (loaded machine): that case is undecided,
+            # never a violation; main.py reports the run as inconclusive when many cases end this way
+            ctx.count("cases_abandoned_by_watchdog")
+            ctx.count("watchdog:" + str(getattr(exc, "cmd", ["?"])[-1])[:60])
         except Exception as exc:  # any escape from a case is recorded, never swallowed
             ctx.exception(exc)
     if hasattr(mod, "teardown"):
